@@ -239,6 +239,22 @@ struct SelCtx<'a> {
 fn classify_selection(props: &mut Vec<&'static str>, c: &SelCtx, oracle: &mut dyn Oracle, obs: Option<(u32, Option<usize>)>, exp: Option<(u32, usize)>) {
     let info = c.info;
     let obs_set = obs.and_then(|(r, _)| info.rule_set.get(r as usize).copied());
+    // ---- 0. an action / token for text that lies before the scan position: a stale (abandoned)
+    // candidate was replayed, whatever rule set it belongs to
+    if let Some((_, oe)) = obs {
+        let stale = match oe {
+            Some(oe) => oe < c.scan_pos || (oe == c.scan_pos && exp.map(|(_, ee)| ee > c.scan_pos).unwrap_or(true) && c.scan_pos < info.n_chars),
+            None => true,
+        };
+        if stale {
+            add(props, "C10");
+            add(props, "C01");
+            if exp.is_none() {
+                add(props, "C07");
+            }
+            return;
+        }
+    }
     // ---- A. explained by being in another rule set?
     if let Some(os) = obs_set {
         if os != c.set_before {
